@@ -215,16 +215,22 @@ EXTRA = {
            "statements carry column lineage (SELECT *) and one whose statements do not (SELECT 1).",
     "C04": "A write-back chain (a value written back to the table it came from through a helper table, so that a path visits two columns "
            "of one table) is among the chain shapes.",
-    "C05": "Split-kernel piece texts agree with their first token (statement pieces start with it, after their comment if any; the rest is free).",
+    "C05": "Split-kernel piece texts agree with their first token (statement pieces start with it, after their comment if any; the rest is free). "
+           "T-SQL no-semicolon scripts run in ROOT mode: the repository's own statement listing walks the parse tree of the whole script (line breaks, GO "
+           "batch separators and semicolons at chosen positions), the runner being handed the script's own text; statements with identical template "
+           "text share one handle and recur after a RENAME / DROP.",
     "C06": "Role scripts with DROP / RENAME among data-moving statements (a table filled from constants only that is dropped later; a renamed "
            "chain member) are included.",
-    "C10": "After a library exception every accessor of the SAME runner object is asked again and must stay within the contract; silent mode is "
+    "C07": "Quote twins of a qualified wildcard next to a second relation (qualifier an alias / a bare table name).",
+    "C10": "Statements with more than one write target (SELECT INTO inside a derived table / CTE) and a scalar subquery over a constants-only "
+           "derived table are in the monitor. After a library exception every accessor of the SAME runner object is asked again and must stay within the contract; silent mode is "
            "also decided under dialect tsql in TSQL_NO_SEMICOLON mode.",
     "C11": "Builtin sets handed to networkx as node bunches (out_edges(nbunch=...), subgraph, degree) follow the symbolic order too; templates "
-           "with two relations of one FROM clause that may share their bare name (un-aliased tables of two schemas, a CTE and a qualified table).",
-    "C12": "The frame audit also runs statements with un-aliased derived tables (names the library generates itself) and asserts that two "
+           "with two relations of one FROM clause that may share their bare name (un-aliased tables of two schemas, a CTE and a qualified table); "
+           "accessor-order scripts with write-only / read-only tables and a self-insert.",
+    "C12": "The frame audit covers memoised functions (functools caches), exercises every public accessor, runs statements with un-aliased derived tables (names the library generates itself) and asserts that two "
            "freshly built providers / analyzers (Dummy, SQLAlchemy on sqlite://, sqlfluff, sqlparse) share no mutable attribute object.",
-    "C13": "INSERT whose query is parenthesised or starts with WITH (a bracketed child like a column list), CREATE VIEW, and the metadata rules "
+    "C13": "An unqualified column over UN-ALIASED tables of two schemas that may share their bare name; INSERT whose query is parenthesised or starts with WITH (a bracketed child like a column list), CREATE VIEW, and the metadata rules "
            "under further grammars (postgres, redshift, impala, sparksql, snowflake, tsql, mysql) whose statement types differ.",
     "C14": "A fifth mechanism: analysed inside the scoped override, every result (tables, pairs, both exports) read after the scope has ended.",
     "C15": "The environment may also set the bool key of the step proof to a non-default value and the acting thread's stored text may equal the "
